@@ -126,6 +126,45 @@ example : fsEfuns.length ≥ 20 := by decide
     the theorem. -/
 theorem mediation_propagates_errors : mediationApplies = ["apply_master_ob"] := by decide
 
+/-- the operation name and write flag of EVERY `check_valid_path` call, regenerated from the source: this is the
+    table `Sys.efunEvents` / `Spec.opNames` mirror (efun → operation name, valid_write iff flag 1; `getfn` passes
+    its own `writeflg`: 0 for e / E / f / r, 1 for w / W / x).  A call that changes its flag (asks valid_read
+    where it writes), its operation name, or a new / removed call breaks this obligation. -/
+theorem cvp_call_table : cvpCalls = [
+    ("lib/efuns/dump_prog.c", "dump_prog", "\"dumpallobj\"", "1"),
+    ("lib/efuns/dumpstat.c", "dumpstat", "\"dumpallobj\"", "1"),
+    ("lib/efuns/ed.c", "ed_start", "\"ed_start\"", "0"),
+    ("lib/efuns/ed.c", "getfn", "\"ed_start\"", "writeflg"),
+    ("lib/efuns/file.c", "f_mkdir", "\"mkdir\"", "1"),
+    ("lib/efuns/file.c", "f_rmdir", "\"rmdir\"", "1"),
+    ("lib/efuns/file.c", "f_stat", "\"stat\"", "0"),
+    ("lib/efuns/file.c", "file_length", "\"file_size\"", "0"),
+    ("lib/efuns/file_utils.c", "copy_file", "\"cp\"", "0"),
+    ("lib/efuns/file_utils.c", "copy_file", "\"cp\"", "1"),
+    ("lib/efuns/file_utils.c", "do_rename", "\"rename\"", "1"),
+    ("lib/efuns/file_utils.c", "file_size", "\"file_size\"", "0"),
+    ("lib/efuns/file_utils.c", "get_dir", "\"stat\"", "0"),
+    ("lib/efuns/file_utils.c", "read_bytes", "\"read_bytes\"", "0"),
+    ("lib/efuns/file_utils.c", "read_file", "\"read_file\"", "0"),
+    ("lib/efuns/file_utils.c", "remove_file", "\"remove_file\"", "1"),
+    ("lib/efuns/file_utils.c", "tail", "\"tail\"", "0"),
+    ("lib/efuns/file_utils.c", "write_bytes", "\"write_bytes\"", "1"),
+    ("lib/efuns/file_utils.c", "write_file", "\"write_file\"", "1"),
+    ("lib/lpc/object.c", "restore_object", "\"restore_object\"", "0"),
+    ("lib/lpc/object.c", "save_object", "\"save_object\"", "1")] := by decide
+
+/-- the character / short string literals of `legal_path` in source order — what `Model.legalPath`,
+    `legalStep`, `nextDot` compare with: `path[0] == '/'`, `strchr (path, '#')`, `p[0] == '.'`, `p[1] == '\\0'`,
+    `p[1] == '.'`, `p[1] == '/' || p[1] == '\\0'`, `strstr (p, "/.")` -/
+theorem legal_path_literals :
+    literals = [("legal_path", ["c47", "c35", "c46", "c0", "c46", "c47", "c0", "s\"/.\""])] := by decide
+
+/-- `save_object` builds its temporary file with `"%.250s.tmp"` from the approved path (the `250` of
+    `Sys.saveEfun` and of the oracle's `covers`) -/
+theorem save_tmp_format :
+    (sites.any (fun s => s.fn == "save_object" && s.callee == "fopen" &&
+      s.origin == .derived "snprintf" ["literal \"%.250s.tmp\"", "mediated check_valid_path"])) = true := by decide
+
 /-- an unmediated site is rejected (non-vacuity of `siteOk`) -/
 example : siteOk { file := "lib/efuns/file.c", fn := "f_rmdir", callee := "rmdir", arg := 0, line := 76,
                    origin := .other "path <- sp->u.string", root := "sp->u.string" } = false := by decide
